@@ -1,5 +1,6 @@
 import RModel.Base.Bytes
 import RModel.Model.CaseModel
+import RModel.Gen.ExtractorShape
 /-
   L2: the compound matcher — `compound_matcher.rs::find_compound_variants` (with `extract_prefix`,
   `tokens_match`), `compound_scanner.rs::IdentifierExtractor` (the identifier regex as a byte-class
@@ -298,20 +299,28 @@ def scanIdents (title : Bool) : Option UInt8 → Nat → Nat → Bytes → List 
       (pos, pos + len) :: scanIdents title (some c) (len - 1) (pos + 1) cs
     else scanIdents title (some c) 0 (pos + 1) cs
 
-/-- dot splitting of one regex match: non-empty parts with their positions -/
-def splitDots : Nat → List Bytes → List (Nat × Nat × Bytes)
+/-- dot splitting of one regex match: non-empty parts with their positions.  `trim = true` is the shape with
+    `part.trim_start_matches('-')`: the leading hyphens of a part do not belong to the segment and its recorded start moves
+    with them; `trim = false` pushes the part as it is (which shape the code has is `Gen.dotSegmentsTrimLeadingHyphens`,
+    regenerated from compound_scanner.rs) -/
+def splitDots (trim : Bool) : Nat → List Bytes → List (Nat × Nat × Bytes)
   | _, [] => []
   | pos, p :: ps =>
-    (if p.isEmpty then [] else [(pos, pos + p.length, p)]) ++ splitDots (pos + p.length + 1) ps
+    let seg := if trim then p.dropWhile (· == 45) else p
+    let st := pos + (p.length - seg.length)
+    (if seg.isEmpty then [] else [(st, st + seg.length, seg)]) ++ splitDots trim (pos + p.length + 1) ps
 
 /-- `IdentifierExtractor::new(styles).find_all(content)` -/
-def findAll (styles : List Style) (content : Bytes) : List (Nat × Nat × Bytes) :=
+def findAllG (trim : Bool) (styles : List Style) (content : Bytes) : List (Nat × Nat × Bytes) :=
   let title := styles.contains .title
   let splitOnDots := !styles.contains .dot
   (scanIdents title none 0 0 content).flatMap (fun (s, e) =>
     let text := (content.drop s).take (e - s)
-    if contains text 46 && splitOnDots then splitDots s (splitOn text 46)
+    if contains text 46 && splitOnDots then splitDots trim s (splitOn text 46)
     else [(s, e, text)])
+
+def findAll (styles : List Style) (content : Bytes) : List (Nat × Nat × Bytes) :=
+  findAllG Gen.dotSegmentsTrimLeadingHyphens styles content
 
 -- compound_scanner.rs::find_enhanced_matches --------------------------------------------------------
 
@@ -423,8 +432,8 @@ def exactMsOf (content : Bytes) (spans : List (Nat × Nat)) : List M :=
 
 /-- the identifiers examined by the compound pass: all of them when there is no exact hit, otherwise those on the
     lines of exact hits and their neighbours -/
-def identsOf (styles : List Style) (content : Bytes) (exactMs : List M) : List (Nat × Nat × Bytes) :=
-  if exactMs.isEmpty then findAll styles content
+def identsOf (trim : Bool) (styles : List Style) (content : Bytes) (exactMs : List M) : List (Nat × Nat × Bytes) :=
+  if exactMs.isEmpty then findAllG trim styles content
   else
     let cand : List Nat := exactMs.foldl (fun acc m =>
       insertNat (m.line + 1) (if m.line > 1 then insertNat (m.line - 1) (insertNat m.line acc) else insertNat m.line acc)) []
@@ -435,7 +444,7 @@ def identsOf (styles : List Style) (content : Bytes) (exactMs : List M) : List (
       | none => []
       | some st =>
         let en := match offs[idx + 1]? with | some x => x | none => content.length
-        (findAll styles ((content.drop st).take (en - st))).map (fun (a, b, t) => (st + a, st + b, t)))
+        (findAllG trim styles ((content.drop st).take (en - st))).map (fun (a, b, t) => (st + a, st + b, t)))
 
 def compoundOf (A : Acr) (content search replace : Bytes) (styles : List Style) (spans : List (Nat × Nat))
     (x : Nat × Nat × Bytes) : Option M :=
@@ -444,11 +453,17 @@ def compoundOf (A : Acr) (content search replace : Bytes) (styles : List Style) 
     | some c => some (mkM content x.1 x.2.1 c.full c.replacement)
     | none => none
 
-/-- `find_enhanced_matches` with `additional_lines = None`; `variants` = keys of the variant table -/
-def findEnhanced (A : Acr) (content search replace : Bytes) (variants : List Bytes) (styles : List Style) : List M :=
+/-- `find_enhanced_matches` with `additional_lines = None`; `variants` = keys of the variant table; `trim` = shape of the
+    extractor's dot splitting -/
+def findEnhancedG (trim : Bool) (A : Acr) (content search replace : Bytes) (variants : List Bytes) (styles : List Style) :
+    List M :=
   let spans := exactSpansOf A content search variants styles
   let exactMs := exactMsOf content spans
-  let compMs := (identsOf styles content exactMs).filterMap (compoundOf A content search replace styles spans)
+  let compMs := (identsOf trim styles content exactMs).filterMap (compoundOf A content search replace styles spans)
   (sortM (exactMs ++ compMs)).foldl (resolveStep spans) []
+
+/-- the line matcher with the extractor shape the code has now -/
+def findEnhanced (A : Acr) (content search replace : Bytes) (variants : List Bytes) (styles : List Style) : List M :=
+  findEnhancedG Gen.dotSegmentsTrimLeadingHyphens A content search replace variants styles
 
 end Compound
